@@ -52,7 +52,12 @@ fn main() {
         let txt = std::fs::read_to_string(&plan_file).expect("plan file");
         Some(Arc::new(txt.lines().filter_map(|l| serde_json::from_str::<RunPlan>(l).ok()).filter(|p| only_run < 0 || p.run as i64 == only_run).collect()))
     };
-    let runs = fixed.as_ref().map(|f| f.len()).unwrap_or(runs);
+    let extra_file = arg("--extra-plans", "");
+    let extra: Arc<Vec<RunPlan>> = Arc::new(if extra_file.is_empty() { Vec::new() } else {
+        std::fs::read_to_string(&extra_file).map(|t| t.lines().filter_map(|l| serde_json::from_str::<RunPlan>(l).ok()).collect()).unwrap_or_default()
+    });
+    let generated = fixed.as_ref().map(|f| f.len()).unwrap_or(runs);
+    let runs = generated + extra.len();
     let all_plans: Arc<Mutex<Vec<RunPlan>>> = Arc::new(Mutex::new(Vec::new()));
     let t0 = Instant::now();
 
@@ -75,15 +80,19 @@ fn main() {
     let mut hs = Vec::new();
     for _ in 0..lanes {
         let (rig, results, next, only_pair, fixed, all_plans) = (rig.clone(), results.clone(), next.clone(), only_pair.clone(), fixed.clone(), all_plans.clone());
+        let extra = extra.clone();
         hs.push(std::thread::spawn(move || {
             loop {
                 let k = next.fetch_add(1, Ordering::SeqCst);
                 if k >= runs || rig.worker_dead() {
                     return;
                 }
-                let rseed = mix(seed.wrapping_mul(0x2545_F491_4F6C_DD1D) ^ (k as u64 + 1).wrapping_mul(0x9E37_79B9_7F4A_7C15));
-                let mut plan = match fixed.as_ref() { Some(f) => f[k].clone(), None => make_plan(k as u64 + 1, rseed, k, buffer_size, big, aborts) };
-                if fixed.is_none() && !only_pair.is_empty() {
+                let k_seed = k.wrapping_sub(extra.len());
+                let rseed = mix(seed.wrapping_mul(0x2545_F491_4F6C_DD1D) ^ (k_seed as u64).wrapping_add(1).wrapping_mul(0x9E37_79B9_7F4A_7C15));
+                // the extra (regression) plans go first: they contain the runs that are expected to stall
+                let k_gen = k.wrapping_sub(extra.len());
+                let mut plan = if k < extra.len() { extra[k].clone() } else { match fixed.as_ref() { Some(f) => f[k_gen].clone(), None => make_plan((k_gen as u64).wrapping_add(1), rseed, k_gen, buffer_size, big, aborts) } };
+                if fixed.is_none() && !only_pair.is_empty() && k >= extra.len() {
                     plan.front_h2 = only_pair.starts_with("h2");
                     plan.back_h2 = only_pair.ends_with("h2");
                     fix_plan(&mut plan);
